@@ -49,6 +49,8 @@ def _single_faults(name, layout):
         return out
     for i in range(n):
         out += [("drop", i), ("dup", i), ("dup_other_value", i), ("relabel", i), ("blank_nan", i), ("blank_none", i), ("extra_row", i)]
+        if any(s[3] is int for s in spec):
+            out.append(("dup_retyped", i))  # the same labels once more, the integer-typed one stored as text
     for k, s in enumerate(spec):
         out.append(("drop_dim_column", k))
     out.append(("extra_value_column",))
@@ -72,6 +74,9 @@ def configs(tier, seed):
                         continue
                     fk = "+".join("_".join(map(str, f)) for f in fs) or "none"
                     out.append(dict(h="faults", op=layout, key=f"faults/{name}/{layout}/{fk}/am={int(am)}/ae={int(ae)}", ds=name, layout=layout, faults=[list(f) for f in fs], am=am, ae=ae))
+                    if layout in ("long_cols", "long_cols_letters") and any(f[0] in ("extra_row", "dup", "dup_other_value", "dup_retyped") for f in fs) and (len(fs) == 1 or tier == "thorough" or hash(str(fs)) % 3 == 0):
+                        # the same frame with the row labels pd.concat leaves behind (added rows repeat labels of the table)
+                        out.append(dict(h="faults", op=layout + "_concat", key=f"faults/{name}/{layout}/{fk}/am={int(am)}/ae={int(ae)}/rowlabels=concat", ds=name, layout=layout, faults=[list(f) for f in fs], am=am, ae=ae, rowlabels="concat"))
         # two imports in one process over same-named dimensions with other item orders (no state may leak)
         if len(DIMSETS[name]) >= 1 and n <= 6:
             for (am, ae) in FLAGS:
@@ -128,6 +133,8 @@ def _build(cfg, w):
                 adds.append([base[f[1]][0], base[f[1]][1]])
             elif f[0] == "dup_other_value":
                 adds.append([base[f[1]][0], fresh(f"dupval{f[1]}", 77.5)])
+            elif f[0] == "dup_retyped":
+                adds.append([tuple(str(l) if sp[3] is int else l for l, sp in zip(base[f[1]][0], spec)), fresh(f"retypedval{f[1]}", 66.5)])
             elif f[0] == "relabel":
                 lab = list(base[f[1]][0])
                 lab[0] = _unknown_item(spec[0])
@@ -150,6 +157,9 @@ def _build(cfg, w):
         df = pd.DataFrame(data)
         if w.sym:
             df["value"] = df["value"].astype(object)
+        if cfg.get("rowlabels") == "concat" and adds:
+            # row labels as after pd.concat([table, additions]) without ignore_index: the additions repeat labels of the table
+            df.index = [i for i in range(len(base)) if i not in drops] + list(range(len(adds)))
         for k in removed_dims:
             df = df.drop(columns=[spec[k][1]])
         if extra_value_col:
@@ -225,6 +235,18 @@ def _build(cfg, w):
         must_raise_always = True
     if layout == "wide" and removed_item_cols and len(last[2]) - len(removed_item_cols) < 1:
         must_raise_always = True
+    def typed(lab):
+        # labels are converted to the dimension's declared type on import: "2000" in an int-typed dimension is the item 2000
+        out = []
+        for x, sp in zip(lab, spec):
+            try:
+                out.append(sp[3](x) if sp[3] is not None and not isinstance(x, sp[3]) else x)
+            except Exception:
+                out.append(x)
+        return tuple(out)
+
+    for r in model_rows:
+        r[0] = typed(r[0])
     labs = [r[0] for r in model_rows]
     dup = len(set(labs)) != len(labs)
     known = lambda l: all(x in s[2] for x, s in zip(l, spec))
